@@ -143,10 +143,21 @@ type tstate struct {
 	events []string
 	visits map[*Block]int
 	hist   []Decision
+	// alias: locals that, on this path, still hold a snapshot of a field chain that has
+	// not been written since ("state := a.connectionState"): testing the local is
+	// testing the field. Dropped at the first node that may write the field, the
+	// local or the chain's root (directly or through a callee).
+	alias map[types.Object]ast.Expr
 }
 
 func (s *tstate) clone() *tstate {
 	n := &tstate{env: s.env.clone(), events: append([]string{}, s.events...), visits: map[*Block]int{}, hist: append([]Decision{}, s.hist...)}
+	if len(s.alias) > 0 {
+		n.alias = map[types.Object]ast.Expr{}
+		for k, v := range s.alias {
+			n.alias[k] = v
+		}
+	}
 	for k, v := range s.visits {
 		n.visits[k] = v
 	}
@@ -203,6 +214,7 @@ func (t *TableEngine) walk(b *Block, idx int, st *tstate) {
 		}
 		t.applyKills(n, st)
 		t.bindConst(n, st)
+		t.bindAlias(n, st)
 	}
 	if b == t.g.Exit {
 		t.finish(st, "fallthrough", "", nil)
@@ -290,6 +302,11 @@ func (t *TableEngine) applyKills(n ast.Node, st *tstate) {
 	if len(vars) == 0 && len(fields) == 0 {
 		return
 	}
+	for v, rhs := range st.alias {
+		if vars[v] || t.chainKilled(rhs, vars, fields) {
+			delete(st.alias, v)
+		}
+	}
 	for key, a := range st.env.atoms {
 		kill := false
 		if a.deps != nil {
@@ -320,6 +337,40 @@ func (t *TableEngine) applyKills(n ast.Node, st *tstate) {
 			delete(st.env.enums, key)
 		}
 	}
+}
+
+// chainKilled: the field chain mentions a killed field or is rooted in a killed variable.
+func (t *TableEngine) chainKilled(rhs ast.Expr, vars map[types.Object]bool, fields map[*types.Var]bool) bool {
+	for x := rhs; ; {
+		switch y := unparen(x).(type) {
+		case *ast.SelectorExpr:
+			if fv, ok := t.p.ObjOf(y.Sel).(*types.Var); !ok || fields[fv] {
+				return true
+			}
+			x = y.X
+			continue
+		case *ast.Ident:
+			return vars[t.p.ObjOf(y)]
+		}
+		return true
+	}
+}
+
+// bindAlias: "v := x.f.g" (Prog.snapshotAlias) makes v an alias of the chain on this path.
+func (t *TableEngine) bindAlias(n ast.Node, st *tstate) {
+	if as, ok := n.(*ast.AssignStmt); ok && len(as.Lhs) == 1 {
+		if id, ok := unparen(as.Lhs[0]).(*ast.Ident); ok {
+			delete(st.alias, t.p.ObjOf(id))
+		}
+	}
+	v, rhs, ok := t.p.snapshotAlias(t.f, n)
+	if !ok {
+		return
+	}
+	if st.alias == nil {
+		st.alias = map[types.Object]ast.Expr{}
+	}
+	st.alias[v] = rhs
 }
 
 // bindConst: v = true/false/const binds the local's value after kills.
@@ -538,7 +589,7 @@ func (t *TableEngine) evalBool(e ast.Expr, st *tstate, k func(*tstate, bool)) {
 		}
 	}
 	// opaque boolean atom
-	e = t.derefAtom(e)
+	e = t.derefAtomSt(e, st)
 	key := t.p.Canon(e)
 	if v, ok := st.env.bools[key]; ok {
 		k(st, v)
@@ -555,7 +606,7 @@ func (t *TableEngine) evalBool(e ast.Expr, st *tstate, k func(*tstate, bool)) {
 }
 
 func (t *TableEngine) evalCompare(op token.Token, x, y ast.Expr, st *tstate, k func(*tstate, bool)) {
-	x, y = t.derefAtom(unparen(x)), t.derefAtom(unparen(y))
+	x, y = t.derefAtomSt(unparen(x), st), t.derefAtomSt(unparen(y), st)
 	p := t.p
 	// both constant
 	if cx, ok := p.ConstVal(x); ok {
@@ -923,6 +974,17 @@ func (t *TableEngine) Semantic(classify func(a *TAtom) (string, bool)) []*SemPat
 // derefAtom: a local that only names a field chain (ruleIface := rule.rule.Iface), in a
 // function that never writes that field, is the field chain: a named intermediate
 // is not a different condition.
+// derefAtomSt: the path-sensitive form — a local that still holds the snapshot of a
+// field chain on this path (tstate.alias) is that chain; otherwise derefAtom.
+func (t *TableEngine) derefAtomSt(e ast.Expr, st *tstate) ast.Expr {
+	if id, ok := e.(*ast.Ident); ok && st != nil && len(st.alias) > 0 {
+		if rhs, ok := st.alias[t.p.ObjOf(id)]; ok {
+			return rhs
+		}
+	}
+	return t.derefAtom(e)
+}
+
 func (t *TableEngine) derefAtom(e ast.Expr) ast.Expr {
 	id, ok := e.(*ast.Ident)
 	if !ok {
